@@ -16,21 +16,26 @@ RULE = ('graphs: nodes 0..n-1, entry 0; quick = every digraph with <= 3 nodes (s
         'every 4-node digraph without self loops in which all nodes are reachable (oracle), a seeded sample of '
         'those plus random graphs with 5..40 nodes through coqc; thorough = all 4-node digraphs with self loops and a third '
         '(by seed) of the 5-node loop-free digraphs in canonical form (entry fixed) through the oracle, seeded samples of '
-        'them (6000 + 3000) and 400 random graphs up to 40 nodes through coqc; post-dominator rows go through coqc for '
+        'them (4000 + 2000) and 400 random graphs up to 40 nodes through coqc; post-dominator rows go through coqc for '
         'n <= 12 only (oracle above). '
         'Post dominators: every sink node of the graph as exit. non-trivial = distinct graph with >= 3 nodes, all '
         'reachable, in which at least one node has an immediate dominator different from the entry or a '
         'non-empty dominance frontier')
-EXPLANATION = ('Unbounded Coq theorems: the reference (reachability by BFS, dominance by node removal, idom, '
-               'dominance frontier, post-dominance) equals the path definitions for all graphs; the certificate '
-               'checker is sound for all graphs and idom maps (and implies tree-ancestor <-> dominance); the model '
-               'of _number_dominator_tree decides the ancestor relation for every tree. Bounded (all graphs with '
-               '1..4 nodes): models of dominates/strictly_dominates, Cytron DF, post-dominator and reach fixpoints '
-               'equal the reference. NOT verified as code: Lengauer-Tarjan itself (lt.py has no Coq model); its '
-               'output is validated per graph by the verified checker - translation validation, not a proof about '
-               'all inputs. Graphs with nodes unreachable from the entry are outside the property (lt.py raises '
-               'KeyError when an unreachable node has an edge into the reachable part).')
-TRUSTED = ['hand models Model/DomTree.v mirror cfg.py/fixed_point_dominator.py (cross-checked per run on every generated graph)',
+EXPLANATION = ('Unbounded Coq theorems (every graph): the reference (reachability by BFS, dominance by node removal, idom, '
+               'dominance frontier, post-dominance, can_reach table) equals the path definitions; immediate dominators '
+               'exist and are unique; the certificate checker is sound AND complete (accepts exactly the maps equal to the '
+               'definition on the nodes; never rejects the true map); the models of _calculate_dominator_tree + '
+               '_number_dominator_tree + below/below_or_same decide dominance / strict dominance for every accepted idom '
+               'map (c25_dominates_unbounded); the models of calculate_post_dominators and calculate_reach return the '
+               'path-defined sets whenever they terminate within their fuel (partial correctness; termination within '
+               'n*n+2 sweeps is bounded/observed). Bounded: a faithful model of lt.py (dfs numbering, semi, iterative path '
+               'compression, buckets, samedom fix-up) equals the reference idom on all graphs with 1..4 nodes for two set '
+               'iteration orders (c25_lt_bounded; KeyError exactly outside the code\'s domain), and on all 16^5 loop-free '
+               '5-node graphs in the thorough tier (16 vm_compute shards, not a named theorem); Cytron DF model equals the '
+               'definition on all graphs with 1..4 nodes. NOT proved: Lengauer-Tarjan and Cytron DF for all graphs (per '
+               'graph the real LT output is validated by the verified checker and the model is compared with the real run '
+               'including dfnum/parent/semi arrays). Graphs with nodes unreachable from the entry are outside the property.')
+TRUSTED = ['hand models Model/DomTree.v and Model/LengauerTarjan.v mirror cfg.py/fixed_point_dominator.py/lt.py/digraph.dfs (cross-checked per run on every generated graph, LT including its dfnum/parent/semi arrays)',
            'tools/props/c25.py builds the ppci ControlFlowGraph and the Coq graph literal from the same edge list',
            'Python set iteration order does not influence the (set-valued) results; results are compared as sorted lists']
 ASSUMPTIONS = ['every node is reachable from the entry node (ppci builds CFGs by traversal from the entry)',
@@ -38,21 +43,24 @@ ASSUMPTIONS = ['every node is reachable from the entry node (ppci builds CFGs by
                'Lengauer-Tarjan is validated on the generated graphs only (certificate per graph)']
 
 MANIFEST = {
-    'text': 'translation validation: for every generated CFG (all small digraphs exhaustively, random graphs to 40 nodes) '
-            'the real Lengauer-Tarjan idom map is accepted by a Coq-verified certificate checker (soundness proved for all '
-            'graphs: accepted map = immediate dominators by the path definition, and tree ancestors = dominators), and the '
-            'dominates / strictly_dominates / dominance-frontier / post-dominator / can_reach answers equal a Coq reference '
-            'proved equal to the path-based definitions for all graphs. Additionally proved for all inputs: the interval '
-            'numbering of the dominator tree decides ancestorship; bounded to graphs with <= 4 nodes: the models of the '
-            'Cytron frontier, post-dominator and reach fixpoints and of the dominates pipeline equal the reference.',
-    'note': 'lt.py itself is not modelled in Coq (no theorem about Lengauer-Tarjan on all graphs); hand models of cfg.py '
-            'are tied to the code by per-run differential correspondence; graphs with unreachable nodes are out of scope. '
-            'No axioms.',
-    'technique': 'verified certificate checker + verified reference oracle in Coq, differential correspondence, bounded exhaustive theorems',
+    'text': 'translation validation + proofs: for every generated CFG (all small digraphs exhaustively, random graphs to 40 '
+            'nodes) the real Lengauer-Tarjan idom map is accepted by a Coq-verified certificate checker (sound and complete '
+            'for all graphs: accepted map = immediate dominators by the path definition), and a faithful Coq model of lt.py '
+            'reproduces the real run (dfnum, parent, semi, idom) and is proved equal to the definition on all graphs with <= 4 '
+            'nodes (all loop-free 5-node graphs in the thorough tier). Proved for all graphs: the modelled dominates / '
+            'strictly_dominates pipeline (dominator tree, interval numbering, interval tests) decides path-defined dominance '
+            'for any accepted idom map; the post-dominator and reach fixpoint models return the path-defined sets when they '
+            'terminate; the reference answers used for dominance frontier / post-dominators / can_reach equal the '
+            'definitions. Cytron dominance-frontier model: bounded to <= 4 nodes.',
+    'note': 'no theorem about Lengauer-Tarjan or Cytron DF on all graphs (bounded theorems + per-graph validation); hand '
+            'models of lt.py / cfg.py / fixed_point_dominator.py are tied to the code by per-run differential correspondence '
+            '(set iteration order of the real run is passed to the LT model); fixpoint termination bound not proved; graphs '
+            'with unreachable nodes are out of scope. No axioms.',
+    'technique': 'verified certificate checker + verified reference oracle in Coq, hand models with unbounded and bounded-exhaustive theorems, differential correspondence',
 }
 
 PDOM_COQ_MAX = 12
-COQ_IMPORTS = ['Spec.CfgSpec', 'Model.DomRef', 'Model.DomTree']
+COQ_IMPORTS = ['Spec.CfgSpec', 'Model.DomRef', 'Model.DomTree', 'Model.LengauerTarjan']
 
 
 # ---------------------------------------------------------------- graphs
@@ -164,6 +172,19 @@ def impl_answers(succ):
         g.calculate_dominance_frontier()
         return [sorted(idx[y] for y in g.df[x]) if x in g.df else None for x in ns]
     guard('df', df)
+    def lt_run():
+        from ppci.graph import lt as ltmod
+        g3, ns3 = build(succ)
+        idx3 = {node: i for i, node in enumerate(ns3)}
+        x = ltmod.LengauerTarjan(False)
+        # iteration order of the successor / predecessor sets, as the algorithm will see it
+        sord = [[idx3[s] for s in g3.successors(u)] for u in ns3]
+        pord = [[idx3[p] for p in g3.predecessors(u)] for u in ns3]
+        im = x.compute(g3, ns3[0])
+        d = lambda m: [(idx3[m[u]] if (u in m and m[u] is not None) else None) for u in ns3]
+        dfnum = [x.dfnum.get(u) for u in ns3]
+        return sord, pord, (dfnum, d(x.parent), d(x.semi), d(im))
+    guard('lt', lt_run)
     guard('reach', lambda: [[v for v in range(n) if g.can_reach(ns[u], ns[v])] for u in range(n)])
     sinks = [x for x in range(n) if not succ[x]]
     out['pdom'] = {}
@@ -328,6 +349,13 @@ def coq_cases(succ, ans):
         cs.append(('(intervals_by_node %s 0 %s)%%nat' % (G, T), Internal if is_exc(iv) else OkV(iv), 'model:intervals'))
         df = ans['df']
         cs.append(('(df_by_node %s 0 %s)%%nat' % (G, T), Internal if is_exc(df) else OkV(df), 'model:cytron_df'))
+    ltr = ans.get('lt')
+    if ltr is not None:
+        if is_exc(ltr):
+            cs.append(('(lt_idom %s (preds_of %s) 0)%%nat' % (G, G), Internal, 'model:lengauer_tarjan'))
+        else:
+            sord, pord, arrays = ltr
+            cs.append(('(lt_compute %s %s 0)%%nat' % (lit(sord), lit(pord)), OkV(arrays), 'model:lengauer_tarjan'))
     cs.append(('(dom_rows %s 0, sdom_rows %s 0)%%nat' % (G, G),
                Internal if is_exc(ans['dom']) or is_exc(ans['sdom']) else (ans['dom'], ans['sdom']),
                'dominates/strictly_dominates'))
@@ -383,7 +411,7 @@ def graph_sets(ctx, deep):
             if s[0] and all_reachable(s) and canonical5(s):
                 five.append(s)
     if deep:     # coqc budget: samples of the big exhaustive families, everything goes to the oracle
-        coq = small + rng.sample(four, min(6000, len(four))) + rng.sample(five, min(3000, len(five))) + rnd
+        coq = small + rng.sample(four, min(4000, len(four))) + rng.sample(five, min(2000, len(five))) + rnd
     else:
         sample = rng.sample(four, min(500, len(four)))
         coq = small + sample + rnd
@@ -417,6 +445,41 @@ def search(ctx, graphs=None):
     ctx.cov['evaluations'] += k
 
 
+def lt_shards5(ctx):
+    """thorough tier: the LT model equals the reference on all 16^5 loop-free 5-node graphs (16 vm_compute shards)"""
+    import subprocess
+    import time
+    from vlib import COQ, strip_noise
+    t0 = time.time()
+    procs = []
+    for k in range(16):
+        path = '%s/lt5_shard_%d.v' % (ctx.work, k)
+        with open(path, 'w') as f:
+            f.write('From PV Require Import Lib.Py Spec.CfgSpec Model.DomRef Model.DomTree Model.LengauerTarjan Proofs.C25_lt.\n'
+                    'Close Scope Z_scope. Open Scope nat_scope.\n'
+                    'Lemma lt5_shard_%d : forallb chk_lt (shard5 %d) = true.\n'
+                    'Proof. vm_cast_no_check (eq_refl true). Qed.\n' % (k, k))
+        procs.append((k, path))
+    failed = []
+    running = []
+    pending = list(procs)
+    while pending or running:
+        while pending and len(running) < 8:
+            k, path = pending.pop(0)
+            pr = subprocess.Popen(['bash', '-c', 'ulimit -s unlimited 2>/dev/null; exec timeout 900 coqc -Q %s PV %s' % (COQ, path)],
+                                  stdout=subprocess.PIPE, stderr=subprocess.STDOUT, text=True, cwd=ctx.work)
+            running.append((k, pr))
+        k, pr = running.pop(0)
+        out, _ = pr.communicate()
+        if pr.returncode != 0:
+            failed.append(k)
+            ctx.log('lt5 shard %d failed:' % k, strip_noise(out)[-400:])
+    ctx.cov['stages']['lt_model_5_nodes_loop_free'] = {'shards': 16, 'graphs': 16 ** 5, 'failed': failed,
+                                                        'wall_s': round(time.time() - t0, 1)}
+    if failed:
+        ctx.failed_stages.append(('lt_bounded5', 'LT model differs from the reference on 5-node shards %r' % failed))
+
+
 def regen(ctx):
     return None   # hand models; nothing generated
 
@@ -424,12 +487,15 @@ def regen(ctx):
 def run(ctx):
     deep = not ctx.quick()
     ok, _ = ctx.build(['Proofs/C25_ref.vo', 'Proofs/C25_cert.vo', 'Proofs/C25_intervals.vo',
-                       'Proofs/C25_bounded.vo', 'Lib/Val.vo'])
+                       'Proofs/C25_bounded.vo', 'Proofs/C25_lt.vo', 'Proofs/C25_complete.vo', 'Proofs/C25_compose.vo',
+                       'Proofs/C25_pdom.vo', 'Proofs/C25_reach.vo', 'Proofs/C25_tree.vo', 'Lib/Val.vo'])
     if ok:
         ctx.check_props('Props/C25.v')
+    if ok and deep:
+        lt_shards5(ctx)
     oracle_graphs, coq_graphs = graph_sets(ctx, deep or bool(ctx.failed_stages))
     # ---- correspondence with the verified reference / certificate checker / hand models
-    if ctx.build(['Model/DomTree.vo', 'Lib/Val.vo'])[0]:
+    if ctx.build(['Model/DomTree.vo', 'Model/LengauerTarjan.vo', 'Lib/Val.vo'])[0]:
         cases, meta = [], []
         dist = {}
         nt = 0
